@@ -33,10 +33,10 @@ inductive Err
   | lineTooLong            -- httping.LineTooLong (an HTTPException)
   | tooManyHeaders         -- HTTPException("Too many headers")
   | valueError             -- ValueError (bad chunk size, chunk end garbage, header without ": ", …)
-  | typeError              -- TypeError (chunk extensions: `parms[bytearray] = …` is unhashable)
   | unicodeError           -- UnicodeEncodeError / UnicodeDecodeError
   | badRequestLine | unknownProtocol | badMethod | badStatusLine
   | invalidBody            -- HTTPException("Invalid body, content-length not provided!")
+  | invalidHeader          -- HTTPException("Invalid header line"): no colon
   | prematureClosure
   | assertionError         -- WSGI protocol misuse by the application
   | outOfModel             -- input outside what the model transcribes
@@ -123,15 +123,32 @@ def splitLF : Bytes → Option (Bytes × Bytes)
       | none => none
       | some (l, r) => some (a :: l, r)
 
-/-- one step of `parseLine(raw, eols)`: the eols are searched in the order given — the first *kind*
-that occurs anywhere wins, then its first occurrence.  `crlfOnly` = `eols=(CRLF,)`, else `(CRLF, LF)`. -/
-def parseLine (crlfOnly : Bool) (raw : Bytes) : Res Bytes :=
-  let hit := match splitCRLF raw with
-    | some r => some r
-    | none => if crlfOnly then none else splitLF raw
+/-- text before the earliest end of line (CRLF or a bare LF) and the rest after it -/
+def splitEol : Bytes → Option (Bytes × Bytes)
+  | [] => none
+  | a :: rest =>
+    if a = 10 then some ([], rest)
+    else if a = 13 ∧ rest.head? = some 10 then some ([], rest.drop 1)
+    else match splitEol rest with
+      | none => none
+      | some (l, r) => some (a :: l, r)
+
+def lineRes (raw : Bytes) (hit : Option (Bytes × Bytes)) : Res Bytes :=
   match hit with
   | none => if raw.length > MAX_LINE_SIZE then .fail .lineTooLong else .need
   | some (l, r) => if l.length > MAX_LINE_SIZE then .fail .lineTooLong else .done l r
+
+/-- one step of `parseLine(raw, eols)`: the **earliest** eol ends the line.  `crlfOnly` = `eols=(CRLF,)`, else
+`(CRLF, LF)` (the three-eol form with a bare CR is used for event streams only, C33) -/
+def parseLine (crlfOnly : Bool) (raw : Bytes) : Res Bytes :=
+  lineRes raw (if crlfOnly then splitCRLF raw else splitEol raw)
+
+/-- the eol search inside `parseLeader` (its own loop, `eols=(CRLF, LF)`): the first *kind* that occurs anywhere
+wins — a CRLF anywhere in the buffer before a bare LF — then its first occurrence -/
+def leaderLine (raw : Bytes) : Res Bytes :=
+  lineRes raw (match splitCRLF raw with
+    | some r => some r
+    | none => splitLF raw)
 
 /-! ## header lines -/
 
@@ -181,32 +198,37 @@ def packHeader (name : Str) (values : List HVal) : Except Err Bytes :=
   | .error e, _ => .error e
   | _, .error e => .error e
 
-/-- `line.split(': ', 1)`: text before the first ": " and after it -/
-def splitColonSpace : Bytes → Option (Bytes × Bytes)
-  | [] => none
-  | [_] => none
-  | a :: b :: rest =>
-    if a = 58 ∧ b = 32 then some ([], rest)
-    else match splitColonSpace (b :: rest) with
-      | none => none
-      | some (l, r) => some (a :: l, r)
+def partitionN (c : Nat) : Bytes → Bytes × Bool × Bytes
+  | [] => ([], false, [])
+  | x :: xs =>
+    if x = c then ([], true, xs)
+    else let r := partitionN c xs; (x :: r.1, r.2.1, r.2.2)
+
+/-- `str.isspace()` for code points below 256 (what `str.strip()` / `str.split()` treat as blank after a latin-1 decode) -/
+def isSpaceC (c : Char) : Bool :=
+  let n := c.toNat
+  (9 ≤ n && n ≤ 13) || (28 ≤ n && n ≤ 32) || n = 133 || n = 160
+
+/-- `str.strip()` -/
+def stripC (s : Str) : Str := ((s.dropWhile isSpaceC).reverse.dropWhile isSpaceC).reverse
 
 /-- `parseLeader(raw, eols=(CRLF, LF))` started on `headers`: header lines up to and including the empty
-line.  `fuel` bounds the number of lines looked at (every line consumes at least its terminator). -/
+line; each line is split at its first `:` and the value stripped.  `fuel` bounds the number of lines looked at
+(every line consumes at least its terminator). -/
 def parseLeaderAux : Nat → List (Str × Str) → Bytes → Res (List (Str × Str))
   | 0, _, _ => .fail .outOfModel
   | fuel + 1, headers, raw =>
-    match parseLine false raw with
+    match leaderLine raw with
     | .need => .need
     | .fail e => .fail e
     | .done line rest =>
       if line.isEmpty then
         if headers.length > MAX_HEADERS then .fail .tooManyHeaders else .done headers rest
       else
-        match splitColonSpace line with
-        | none => .fail .valueError       -- `key, value = line.split(': ', 1)` cannot unpack
-        | some (k, v) =>
-          let headers := loSet headers (decodeLatin1 k) (decodeLatin1 v)
+        let pr := partitionN 58 line
+        if !pr.2.1 then .fail .invalidHeader       -- HTTPException("Invalid header line")
+        else
+          let headers := loSet headers (decodeLatin1 pr.1) (stripC (decodeLatin1 pr.2.2))
           if headers.length > MAX_HEADERS then .fail .tooManyHeaders
           else parseLeaderAux fuel headers rest
 
@@ -262,26 +284,20 @@ def pyIntHex (bs : Bytes) : Except Err Nat :=
       if (splitOnN 95 t2).all (fun g => !g.isEmpty && g.all (fun b => (hexVal? b).isSome)) then .error .outOfModel
       else .error .valueError
 
-def partitionN (c : Nat) : Bytes → Bytes × Bool × Bytes
-  | [] => ([], false, [])
-  | x :: xs =>
-    if x = c then ([], true, xs)
-    else let r := partitionN c xs; (x :: r.1, r.2.1, r.2.2)
-
-/-- chunk extension parameters: `name.strip() -> value.strip() or None` (bytes keys, insertion ordered) -/
-def parseExts (exts : Bytes) : List (Bytes × Option Bytes) :=
+/-- chunk extension parameters: `name.strip() -> value.strip() or None`, latin-1 decoded, insertion ordered -/
+def parseExts (exts : Bytes) : List (Str × Option Str) :=
   if exts.isEmpty then []
   else (splitOnN 59 exts).foldl (fun acc ext =>
     let r := partitionN 61 (stripN ext)
-    let k := stripN r.1
-    let v := stripN r.2.2
+    let k := decodeLatin1 (stripN r.1)
+    let v := decodeLatin1 (stripN r.2.2)
     let v' := if v.isEmpty then none else some v
     if acc.any (fun kv => kv.1 = k) then acc.map (fun kv => if kv.1 = k then (k, v') else kv)
     else acc ++ [(k, v')]) []
 
 structure Chunk where
   size : Nat
-  parms : List (Bytes × Option Bytes)
+  parms : List (Str × Option Str)
   trails : List (Str × Str)
   data : Bytes
   deriving DecidableEq
@@ -296,9 +312,7 @@ def parseChunk (raw : Bytes) : Res Chunk :=
     match pyIntHex pr.1 with
     | .error e => .fail e
     | .ok size =>
-      -- `parms[name.strip()] = …` with a `bytearray` key: every chunk extension raises `TypeError`
-      if !pr.2.2.isEmpty then .fail .typeError else
-      let parms : List (Bytes × Option Bytes) := []
+      let parms := parseExts pr.2.2
       if size = 0 then
         match parseLeader rest with
         | .need => .need
@@ -486,11 +500,6 @@ def build (S : Std) (r : Requester) : Except Err (Requester × Bytes) :=
 
 /-! ## `Requestant` (server side request parser) -/
 
-/-- `str.isspace()` for code points below 256 (what `str.split()` splits on after a latin-1 decode) -/
-def isSpaceC (c : Char) : Bool :=
-  let n := c.toNat
-  (9 ≤ n && n ≤ 13) || (28 ≤ n && n ≤ 32) || n = 133 || n = 160
-
 /-- `str.split()` -/
 def splitWsGo : Str → Str → List Str
   | [], cur => if cur.isEmpty then [] else [cur.reverse]
@@ -500,7 +509,6 @@ def splitWsGo : Str → Str → List Str
 
 def splitWs (s : Str) : List Str := splitWsGo s []
 
-def stripC (s : Str) : Str := ((s.dropWhile isSpaceC).reverse.dropWhile isSpaceC).reverse
 
 def METHODS : List Str :=
   ["GET", "HEAD", "PUT", "PATCH", "POST", "DELETE", "OPTIONS", "TRACE", "CONNECT"].map String.toList
@@ -527,12 +535,13 @@ def signSplit : Str → Bool × Str
   | '+' :: r => (false, r)
   | r => (false, r)
 
-/-- `int(text)` for `ws* [+-]? digit+ ws*`; `none` = `ValueError`; `_` between digits and non-ASCII text
-(Unicode digits and blanks) are outside the model -/
+/-- `int(text)` for `ws* [+-]? digit+ ws*`; `none` = `ValueError`; `_` between digits and text beyond
+Latin-1 (further Unicode digits and blanks) are outside the model; below U+0100 the blanks are those of `isSpaceC` and
+there are no further decimal digits -/
 def pyIntDec (s : Str) : Except Err (Option Int) :=
-  if s.any (fun c => c.toNat ≥ 128) then
-    -- Unicode digits / blanks could make this a number: outside the model, unless an ASCII character already rules it out
-    (if s.all (fun c => c.toNat ≥ 128 || ('0' ≤ c ∧ c ≤ '9') || c = '+' || c = '-' || c = '_' || isSpaceC c)
+  if s.any (fun c => c.toNat ≥ 256) then
+    -- digits / blanks beyond Latin-1 could make this a number: outside the model, unless another character rules it out
+    (if s.all (fun c => c.toNat ≥ 256 || ('0' ≤ c ∧ c ≤ '9') || c = '+' || c = '-' || c = '_' || isSpaceC c)
      then .error .outOfModel else .ok none)
   else
   let sd := signSplit (stripC s)
@@ -572,15 +581,15 @@ structure Request where
   headers : List (Str × Str)
   chunked : Bool
   body : Bytes
-  parms : List (Bytes × Option Bytes)
+  parms : List (Str × Option Str)
   trails : List (Str × Str)
   jsoned : Option Bool
   persisted : Bool
   deriving DecidableEq
 
 /-- all chunks of a chunked body; `fuel` bounds their number -/
-def parseChunks : Nat → Bytes → List (Bytes × Option Bytes) → Bytes →
-    Res (Bytes × List (Bytes × Option Bytes) × List (Str × Str))
+def parseChunks : Nat → Bytes → List (Str × Option Str) → Bytes →
+    Res (Bytes × List (Str × Option Str) × List (Str × Str))
   | 0, _, _, _ => .fail .outOfModel
   | fuel + 1, body, parms, raw =>
     match parseChunk raw with
@@ -641,7 +650,7 @@ def parseRequest (S : Std) (raw : Bytes) : Res Request :=
                 (match conn with
                  | some c => !c.isEmpty && containsSubC "keep-alive".toList (lower c)
                  | none => false)
-            let mk (body : Bytes) (parms : List (Bytes × Option Bytes)) (trails : List (Str × Str)) : Request :=
+            let mk (body : Bytes) (parms : List (Str × Option Str)) (trails : List (Str × Str)) : Request :=
               { method := method, url := url, version := version, path := S.unquote sp.path, scheme := sp.scheme,
                 hostname := sp.hostname, port := port, query := sp.query, fragment := sp.fragment,
                 headers := headers, chunked := chunked, body := body, parms := parms, trails := trails,
@@ -835,7 +844,7 @@ structure Response where
   headers : List (Str × Str)
   chunked : Bool
   body : Bytes
-  parms : List (Bytes × Option Bytes)
+  parms : List (Str × Option Str)
   trails : List (Str × Str)
   jsoned : Option Bool
   persisted : Bool
@@ -930,7 +939,7 @@ def parseResponse (method : Str) (closed : Bool) (raw : Bytes) : Res Response :=
                || (match odGet headers "proxy-connection".toList with
                    | some v => !v.isEmpty && containsSubC "keep-alive".toList (lower v) | none => false))
           let redirectant := status = 300 || status = 301 || status = 302 || status = 303 || status = 307
-          let mk (body : Bytes) (parms : List (Bytes × Option Bytes)) (trails : List (Str × Str)) : Response :=
+          let mk (body : Bytes) (parms : List (Str × Option Str)) (trails : List (Str × Str)) : Response :=
             { version := version, status := status, reason := stripC reason, headers := headers, chunked := chunked,
               body := body, parms := parms, trails := trails, jsoned := jsoned, persisted := persisted,
               redirectant := redirectant }
